@@ -553,12 +553,21 @@ class Prop(Check):
         from harness.txutil import with_timeout
 
         hang = {"other": "Timeout"}
-        r = with_timeout(lambda: self.impl_once(case), 8 if self._hangs[0] < 3 else 4)
-        if r == hang and self._hangs[0] < 3:
-            r = with_timeout(lambda: self.impl_once(case), 45)
-            if r == hang:
-                self._hangs[0] += 1
+        self._scratch = []
+        try:
+            r = with_timeout(lambda: self.impl_once(case), 8 if self._hangs[0] < 3 else 4)
+            if r == hang and self._hangs[0] < 3:
+                r = with_timeout(lambda: self.impl_once(case), 45)
+                if r == hang:
+                    self._hangs[0] += 1
+        finally:  # second chance for the scratch directories (e.g. rmtree hit by a RecursionError)
+            builtins.open = self._real_open
+            for d in self._scratch:
+                shutil.rmtree(d, ignore_errors=True)
         return {"load": "Timeout", "opened": []} if r == hang else r
+
+    _real_open = builtins.open
+    _scratch: list = []
 
     def impl_once(self, case):
         use_repo()
@@ -568,8 +577,9 @@ class Prop(Check):
 
         shm = "/dev/shm"  # scratch files in memory when possible (outside /repo and /verif either way)
         tmp = os.path.realpath(tempfile.mkdtemp(prefix="c25_", dir=shm if os.access(shm, os.W_OK) else None))
+        self._scratch.append(tmp)
         opened = []
-        real_open = builtins.open
+        real_open = self._real_open
 
         def logging_open(file, *a, **kw_):
             try:
